@@ -329,9 +329,10 @@ def run_ken(ctx, p):
     from exactpack.solvers.kenamond import Kenamond1, Kenamond2, Kenamond3
     rng = np.random.default_rng(p["pseed"])
     w = p["which"]
+    phi = float(rng.choice([0.0, math.pi / 2, rng.uniform(0, 2 * math.pi), rng.uniform(0, 2 * math.pi)]))
     if w == 1:
         a = ctx.make(Kenamond1, geometry=2, D=p["D"], x_d=tuple(p["x_d"]), t_d=p["t_d"])
-        b = ctx.make(Kenamond1, geometry=3, D=p["D"], x_d=(0.0, p["x_d"][0], p["x_d"][1]), t_d=p["t_d"])
+        b = ctx.make(Kenamond1, geometry=3, D=p["D"], x_d=(p["x_d"][0] * math.cos(phi), p["x_d"][0] * math.sin(phi), p["x_d"][1]), t_d=p["t_d"])
         P2 = rng.uniform(-10, 10, size=(40, 2))
     elif w == 2:
         k = p["k2"]
@@ -342,7 +343,7 @@ def run_ken(ctx, p):
         P2 = rng.uniform(-k["box"], k["box"], size=(40, 2))
     else:
         a = ctx.make(Kenamond3, geometry=2, R=p["R"], D=p["D"], x_d=tuple(p["x_d"]), t_d=p["t_d"])
-        b = ctx.make(Kenamond3, geometry=3, R=p["R"], D=p["D"], x_d=(0.0, p["x_d"][0], p["x_d"][1]), t_d=p["t_d"])
+        b = ctx.make(Kenamond3, geometry=3, R=p["R"], D=p["D"], x_d=(p["x_d"][0] * math.cos(phi), p["x_d"][0] * math.sin(phi), p["x_d"][1]), t_d=p["t_d"])
         lod = math.hypot(*p["x_d"])
         P2 = []
         while len(P2) < 40:
@@ -350,14 +351,15 @@ def run_ken(ctx, p):
             if np.linalg.norm(q) > 1.001 * p["R"]:
                 P2.append(q)
         P2 = np.array(P2)
-    P3 = np.column_stack([np.zeros(len(P2)), P2])
+    # the common plane: any plane through the last axis (azimuth phi; the 2-D abscissa is the distance from the axis in it)
+    P3 = np.column_stack([P2[:, 0] * math.cos(phi), P2[:, 0] * math.sin(phi), P2[:, 1]])
     A, B = ctx.call(a, P2, 0.0), ctx.call(b, P3, 0.0)
     slack = 1e-7 * p["R"] / p["D"] if w == 3 else 0.0
     ta, tb = np.asarray(A["burntime"], float), np.asarray(B["burntime"], float)
     sc = max(float(np.max(np.abs(ta))), 1e-300)
     d = float(np.max(np.abs(ta - tb)))
     ctx.observe("route.burn", "Kenamond%d 2D~3D" % w, d <= 1e-12 * sc + slack, measure=d / sc, tol=1e-12,
-                nontrivial=float(np.ptp(ta)) > 0, detail=dict({k: v for k, v in p.items() if k != "k2"}))
+                nontrivial=float(np.ptp(ta)) > 0, detail=dict({k: v for k, v in p.items() if k != "k2"}, azimuth=phi))
 
 
 def reach(tot, tier):
